@@ -1783,6 +1783,26 @@ def _b_str_eq_ignore_case(ev, n, a):
     return Sym("eq_ignore_ascii_case", tuple(a))
 
 
+def _b_tinystr_try_from_utf8(ev, n, a):
+    """TinyAsciiStr<N>::try_from_utf8 of concretely known bytes: Ok(text) when they fit, are ASCII and contain no NUL"""
+    import re as _re
+    if len(a) == 1 and isinstance(a[0], T) and all(isinstance(b, int) and not isinstance(b, bool) for b in a[0].items):
+        m = _re.search(r"TinyAsciiStr<(\d+)>", str(n.get("ty") or ""))
+        if m:
+            bs = a[0].items
+            if len(bs) <= int(m.group(1)) and all(0 < b < 128 for b in bs):
+                return V(OK, ("".join(chr(b) for b in bs),))
+            return V(ERR, (Sym("tinystr-error", ()),))
+    return NotImplemented
+
+
+def _b_u8_is_ascii_digit(ev, n, a):
+    if len(a) == 1 and isinstance(a[0], int) and not isinstance(a[0], bool):
+        return 48 <= a[0] <= 57
+    if len(a) == 1 and isinstance(a[0], str) and len(a[0]) == 1:
+        return "0" <= a[0] <= "9"
+    return NotImplemented
+
 def _b_tinystr_all_bytes(ev, n, a):
     """TinyAsciiStr<N>::all_bytes of a concretely known string: its bytes padded with NUL to N"""
     import re as _re
@@ -1796,6 +1816,9 @@ def _b_tinystr_all_bytes(ev, n, a):
 _OPTION_MUTATORS = {"core::option::Option::<T>::" + m for m in ("take", "insert", "replace", "get_or_insert", "get_or_insert_with")}
 
 BUILTINS = {
+    "tinystr::ascii::TinyAsciiStr::<N>::try_from_utf8": _b_tinystr_try_from_utf8,
+    "core::num::<impl u8>::is_ascii_digit": _b_u8_is_ascii_digit,
+    "core::char::methods::<impl char>::is_ascii_digit": _b_u8_is_ascii_digit,
     "tinystr::ascii::TinyAsciiStr::<N>::all_bytes": _b_tinystr_all_bytes,
     "core::option::Option::<T>::unwrap_or": _b_unwrap_or,
     "core::result::Result::<T, E>::unwrap_or": _b_unwrap_or,
